@@ -391,12 +391,18 @@ fn penc<T: Serializable<T> + PartialEq>(v: &T, size: usize) -> String {
     format!("ok:{}:{}:{}", digest_b(&b), size, rb)
 }
 
+thread_local! { static FRAG: std::cell::Cell<usize> = const { std::cell::Cell::new(0) }; }
+
 fn pdec<T: Serializable<T> + PartialEq>(bytes: &[u8], lay: fn(&T, &mut Lay)) -> String {
     let mut c = Cursor::new(bytes);
-    match T::read(&mut c) {
+    let k = FRAG.with(|f| f.get());
+    // c05.pdecfrag: the same decode through a reader that hands out at most k bytes per call
+    let mut fr = crate::util::FragReader { data: bytes, pos: 0, k, calls: 0 };
+    let r = if k > 0 { T::read(&mut fr) } else { T::read(&mut c) };
+    match r {
         Err(e) => err_class(&e),
         Ok(v) => {
-            let pos = c.position();
+            let pos = if k > 0 { fr.pos as u64 } else { c.position() };
             let mut l = Lay::canon(); lay(&v, &mut l);
             let mut b2 = Vec::new();
             if v.write(&mut b2).is_err() { return "err:write".into(); }
@@ -476,6 +482,7 @@ pub fn exec(op: &str, a: &[&str]) -> Option<String> {
         "c05.penc" => { let mut p = P { t: &a[1..], i: 0 }; Some(ptype_enc(a[0], &mut p)) }
         "c05.dec" => Some(dec_msg(&unhexd(a[2]), magic_of(a[1]))),
         "c05.pdec" => Some(ptype_dec(a[0], &unhexd(a[1]))),
+        "c05.pdecfrag" => { FRAG.with(|f| f.set(a[2].parse().unwrap_or(1).max(1))); let r = ptype_dec(a[0], &unhexd(a[1])); FRAG.with(|f| f.set(0)); Some(r) }
         _ => None,
     }
 }
@@ -818,6 +825,18 @@ pub fn gen(tier: &str, rng: &mut Rng, out: &mut Vec<String>) {
                 _ => {}
             }
             out.push(format!("c05.pdec {} {}", ty, hexd(&b)));
+        }
+    }
+    // (4') the same payload-level decodes through a reader that returns short reads (1, 2, 3, 7 bytes per call)
+    for ty in PTYPES.iter() {
+        for i in 0..(if thorough { 60 } else { 12 }) {
+            let mut vr = rng.fork();
+            let mut g = G { r: &mut vr, small: true };
+            let mut l = if i % 3 == 1 { Lay::noncanon(rng) } else { Lay::canon() };
+            g_ptype(ty, &mut g, &mut l);
+            let mut b = l.bytes;
+            if i % 6 == 5 && !b.is_empty() { let k = rng.below(b.len() as u64) as usize; b.truncate(k); }
+            for k in [1usize, 2, 3, 7] { out.push(format!("c05.pdecfrag {} {} {}", ty, hexd(&b), k)); }
         }
     }
     // (5) every varint size class, both sides, minimal and non-minimal encodings
